@@ -544,8 +544,8 @@ func observe(g geom.Geometry, others []Operand) (map[string]string, string) {
 }
 
 func c20Main(r *engine.Run) {
-	r.Rule = "argument pools: zero value of Geometry and of every concrete type, typed empties in 4 coordinate types (quick: XY), Multi* and collections of 1..3 empties of mixed types, nested empty collections; callees: every exported method of the 8 geometry types, Envelope and Sequence (by reflection; all argument tuples from small pools) and a table of free functions over all ordered pairs; oracle: no panic outside the documented ones, neutral answers, re-decodable encodings, zero Geometry ≡ empty GeometryCollection on every callee; transparency: 30 non-empty geometries × an empty member of every type at every position — measures, envelope, hull, DE-9IM, predicates, distance and set-operation point sets unchanged. non-trivial = (geometry, inserted empty) pairs; outcomes = distinct methods reached"
-	pool := emptyPool(!r.Thorough())
+	r.Rule = "argument pools: zero value of Geometry and of every concrete type, typed empties in 4 coordinate types, Multi* and collections of 1..3 empties of mixed types, nested empty collections; callees: every exported method of the 8 geometry types, Envelope and Sequence (by reflection; all argument tuples from small pools) and a table of free functions over all ordered pairs; oracle: no panic outside the documented ones, neutral answers, re-decodable encodings, zero Geometry ≡ empty GeometryCollection on every callee; transparency: 30 non-empty geometries × an empty member of every type at every position — measures, envelope, hull, DE-9IM, predicates, distance and set-operation point sets unchanged. non-trivial = (geometry, inserted empty) pairs; outcomes = distinct methods reached"
+	pool := emptyPool(false) // all four coordinate types in both tiers (the whole check takes seconds)
 	r.States.Add(int64(len(pool)))
 	// 1. every method on every empty receiver
 	argGeoms := pool
@@ -733,6 +733,13 @@ func c20Main(r *engine.Run) {
 	if !r.Thorough() {
 		others = []Operand{others[0], others[1], others[2], others[3], others[4]}
 	}
+	// operands that strictly contain every base (no boundary contact: routines that look at one
+	// representative point of each member must not stop at an empty member), and one far away
+	others = append(others,
+		mkOp(id.Polygon(sqr(-3, -3, 9, 9)).AsGeometry(), "o"),
+		mkOp(geom.NewMultiPolygon([]geom.Polygon{id.Polygon(sqr(20, 20, 21, 21)), id.Polygon(sqr(-3, -3, 9, 9), sqr(7, 7, 8, 8))}).AsGeometry(), "o"),
+		mkOp(geom.NewGeometryCollection([]geom.Geometry{id.Point(P(30, 30)).AsGeometry(), id.Polygon(sqr(-4, -4, 10, 10)).AsGeometry()}).AsGeometry(), "o"),
+		mkOp(id.Line(L(P(40, 40), P(41, 45))).AsGeometry(), "o"))
 	if r.Parallel(len(bases), func(i int) {
 		g := bases[i]
 		ref, pnc := observe(g.G, others)
